@@ -7,11 +7,11 @@ wt=/tmp/confirm_$name
 out=/tmp/confirm_${name}.json
 rm -rf $wt; git -C /repo worktree prune; git -C /repo worktree add --detach $wt >/dev/null 2>&1 || exit 2
 cd $wt
-PYTHONPATH=$wt /venv/bin/python $demo > /tmp/confirm_${name}_clean.txt 2>&1; rc_clean=$?
+PYTHONPATH=$wt:$DEMO_EXTRA /venv/bin/python $demo > /tmp/confirm_${name}_clean.txt 2>&1; rc_clean=$?
 if ! git -C $wt apply $patch 2>/tmp/confirm_${name}_apply.txt; then
   patch -p1 -d $wt < $patch > /tmp/confirm_${name}_apply.txt 2>&1 || { echo "{\"name\":\"$name\",\"applies\":false}" > $out; git -C /repo worktree remove --force $wt; exit 1; }
 fi
-PYTHONPATH=$wt /venv/bin/python $demo > /tmp/confirm_${name}_patched.txt 2>&1; rc_patched=$?
+PYTHONPATH=$wt:$DEMO_EXTRA /venv/bin/python $demo > /tmp/confirm_${name}_patched.txt 2>&1; rc_patched=$?
 PYTHONPATH=$wt /venv/bin/python -m pytest -q -p no:cacheprovider --timeout=900 --continue-on-collection-errors --junitxml=/tmp/confirm_${name}.xml > /tmp/confirm_${name}_tests.txt 2>&1
 /venv/bin/python - <<PY
 import json,xml.etree.ElementTree as ET
